@@ -856,6 +856,27 @@ def main():
               '                FieldInfo { name: "g", required: false, multiple: false, valid: &[" = 7"], invalid: &[" = true"] },',
               "            ],", "            flat_items: &[], valid: &[], invalid: &[] },",
               '        kind: "FA", attr_names: &["a"], from_ident: false,', "    }", "}"]
+    # fixed FromMeta receivers (independent of the random corpus): a struct variant with a flatten member
+    # that rejects unknown names next to a skipped sibling, and a struct variant without fields
+    body += ["#[derive(Debug, FromMeta)]", "pub struct WIN {", "    pub p: Option<u8>,", "    #[darling(default)]", "    pub q: u8,", "}",
+             "impl Canon for WIN {", "    fn canon(&self) -> Sx {",
+             '        tagged("rec", vec![st("WIN"), list(vec![st("p"), self.p.canon()]), list(vec![st("q"), self.q.canon()])])', "    }", "}",
+             "#[derive(Debug, FromMeta)]", "pub enum EVW {", "    Idle {},", "    Cfg {", "        #[darling(flatten)]", "        inner: WIN,",
+             "        #[darling(skip)]", "        hidden: Option<u8>,", "        level: u8,", "    },", "}",
+             "impl Canon for EVW {", "    fn canon(&self) -> Sx {", "        match self {",
+             '            EVW::Idle {} => tagged("variant", vec![st("EVW"), st("Idle"), tagged("rec", vec![st("Idle")])]),',
+             '            EVW::Cfg { inner, hidden, level } => tagged("variant", vec![st("EVW"), st("Cfg"), tagged("rec", vec![st("Cfg"), list(vec![st("inner"), inner.canon()]), list(vec![st("hidden"), hidden.canon()]), list(vec![st("level"), level.canon()])])]),',
+             "        }", "    }", "}"]
+    infos += ["fn info_WIN() -> RecvInfo {", "    RecvInfo {", '        name: "WIN", is_enum: false, allow_unknown: false, has_flatten: false,', "        fields: vec![",
+              '            FieldInfo { name: "p", required: false, multiple: false, valid: &[" = 5", " = 0"], invalid: &[" = 300", " = true"] },',
+              '            FieldInfo { name: "q", required: false, multiple: false, valid: &[" = 7"], invalid: &[" = \\"x\\""] },',
+              "        ],", "        flat_items: &[],", '        valid: &["(p = 5)", "()", "(q = 7, p = 0)"],', '        invalid: &["(p = 5, zzz_unknown = 1)", "(p = 300)", " = 5"],', "    }", "}",
+              "fn info_EVW() -> RecvInfo {",
+              '    RecvInfo { name: "EVW", is_enum: true, allow_unknown: false, has_flatten: false, fields: vec![], flat_items: &[],',
+              '        valid: &["(idle())", "(cfg(level = 1))", "(cfg(level = 2, p = 5))", "(cfg(q = 7, level = 3, p = 0))"],',
+              '        invalid: &["(idle(zzz_unknown = 1))", "(idle(\\"lit\\"))", "(cfg(level = 1, zzz_unknown = 1))", "(cfg(p = 5))", "(idle)", " = \\"idle\\"", "(cfg = 1)", "()", "(nope)", " = 5", "(a, b)", ""] }',
+              "}"]
+    fixed_fm = ["WIN", "EVW"]
     out += body
     out.append("")
     out += infos
@@ -868,11 +889,17 @@ def main():
         else:
             out.append("    vec![]")
         out.append("}")
+    for n in fixed_fm:
+        out.append("fn vals_%s() -> Vec<(String, Sx)> {" % n)
+        out.append("    vec![]")
+        out.append("}")
     out.append("pub fn receivers() -> Vec<RecvEntry> {")
     out.append("    vec![")
     for r in receivers:
         out.append('        RecvEntry { info: info_%s, ty: mk::<%s>(tagged("recv", vec![st("%s")]), 0), vals: vals_%s },' % (
             r["name"], r["name"], r["name"], r["name"]))
+    for n in fixed_fm:
+        out.append('        RecvEntry { info: info_%s, ty: mk::<%s>(tagged("recv", vec![st("%s")]), 0), vals: vals_%s },' % (n, n, n, n))
     out.append("    ]")
     out.append("}")
     for r in outer:
